@@ -31,8 +31,10 @@
 (*   Call, Sweep                               Outcome                      *)
 (*   Channel                                   Secrets                      *)
 (*   CliRun                                    Cli                          *)
+(*   SerialApi, ParamsNew, InsertEku, Zeroize,                              *)
+(*   SimpleSelfSigned, Conversions             Api                          *)
 (***************************************************************************)
-EXTENDS Import, Strings, Pem, KeyLife, PathValidation, Cli, Purity, Outcome, Secrets, TLC
+EXTENDS Import, Strings, Pem, KeyLife, PathValidation, Cli, Purity, Outcome, Secrets, TLC, Api
 
 VARIABLES names, cov, reg
 svars == <<names, cov, reg>>
@@ -164,6 +166,12 @@ ReqOf(ev) ==
      [] ev.op = "Call" -> ReqCall(ev.args, ev.out)
      [] ev.op = "Sweep" -> ReqSweep(ev.args, ev.obs)
      [] ev.op = "Channel" -> ReqChannel(ev.args, ev.obs)
+     [] ev.op = "SerialApi" -> ReqSerialApi(ev.args, ev.obs)
+     [] ev.op = "ParamsNew" -> ReqParamsNew(ev.args, ev.out, ev.obs)
+     [] ev.op = "InsertEku" -> ReqInsertEku(ev.args, ev.obs)
+     [] ev.op = "Zeroize" -> ReqZeroize(ev.obs)
+     [] ev.op = "SimpleSelfSigned" -> ReqSimple(ev.args, ev.out, ev.obs)
+     [] ev.op = "Conversions" -> ReqConversions(ev.obs)
      [] ev.op = "Build" -> { <<"C16.feature_combination_builds", ev.obs.ok>> }
      [] ev.op = "KeyXfer" ->
           { <<"C16.exported_key_loads_in_other_back_end",
